@@ -80,6 +80,14 @@ PROPS = {
         "note": "Trusted: Coq kernel; reflect.Value.IsNil's panic set and the translator's table extraction; hand-written model tied to the code by the correspondence run. Termination of the scan loops (fuel suffices) is part of C01/C02's theorems. No axioms.",
         "assumptions": ["Go values outside the modelled universe are represented by their reflect.Kind class (catch-all constructors)"],
     },
+    "C09": {
+        "level": "proof",
+        "design_ref": "§6 C09",
+        "technique": "Coq proof that the common-parser model maps every supported representation (all integer widths, strings, json.Number, floats, typed slices, heterogeneous lists) to the ids of its canonical texts, over type-switch tables regenerated from the source; cross product of representations run through the real parser (ids compared exactly via FNV-64 in Coq), through both indexes, and through a JSON round trip",
+        "text": "canonical-text identification at indexing and query time is a Coq theorem for all values of every supported shape (integer widths by a universally quantified kind; slices/lists by induction), against a representation-free specification; the real parser is run on the cross product (index-side shape x query-side shape) of 15 values, the same pairs go through AddDocument/Retrieve, and documents of every operator are marshalled, unmarshalled, rebuilt and compared with the original index.",
+        "note": "Trusted: Coq kernel; translator's type-switch extraction; fmt %v / float truncation modelled (compared on every run). Known finding: integers beyond 2^53 lose precision through encoding/json (F13). No axioms.",
+        "assumptions": ["no FNV-64 collision among the texts used (theorems identify an id with its text)", "floats inside the modelled fragment |x| < 2^63"],
+    },
 }
 
 # properties not claimed (reason); empty when everything is claimed
